@@ -190,7 +190,7 @@ func c08Emit(e *emitter, rp c08Replay) {
 	}
 	rp.Want = sliceOf(flat, rp.Start, rp.Count)
 	kindN := map[string]int{"LimitPlan": 0, "FinalLimitPlan": 1, "select": 2, "ordered": 3, "aggregated": 4, "delete": 5,
-		"aggregated-all": 6, "select-range": 7, "select-keys": 8, "delete-keys": 9, "select-alias": 10, "aggregated-ordered": 11}[rp.Kind]
+		"aggregated-all": 6, "select-range": 7, "select-keys": 8, "delete-keys": 9, "select-alias": 10, "aggregated-ordered": 11, "aggregated-interleaved": 12}[rp.Kind]
 	// offsets and counts beyond the end of the result are handed to the twin as len+1: the
 	// slice is the same one (Properties/C08.v: slice_saturates), and a nat numeral near 2^63
 	// cannot be written down
@@ -376,6 +376,10 @@ func runStmtCase(e *emitter, kind string, n, B, s, c int) {
 	case "aggregated-ordered":
 		// ORDER BY above the aggregate: the limit must NOT be pushed into the aggregate node
 		base = "select key, count(1) as c, sum(int(value)) as sm where key ^= 'k' group by key order by key desc"
+	case "aggregated-interleaved":
+		// groups whose pairs INTERLEAVE in key order (grouped by the value's last digit): the limit
+		// pushed into the aggregate node cuts the GROUPS, not the scan
+		base = "select substr(value, 3, 4) as g, count(1) as c, sum(int(value)) as sm, group_concat(key, ',') as ks where key ^= 'k' group by g"
 	case "aggregated-all":
 		// one row for all pairs: the limit is pushed down into AggregatePlan
 		base = "select count(1), sum(int(value)) where key ^= 'k'"
@@ -390,12 +394,17 @@ func runStmtCase(e *emitter, kind string, n, B, s, c int) {
 		}
 		base = "select * where key in (" + strings.Join(ks, ", ") + ")"
 	}
-	lim = fmt.Sprintf("%s limit %d, %d", base, s, c)
+	// a fifth of the statements write offset and count ZERO-PADDED (010 is ten)
+	numFmt := "%d"
+	if (n+2*s+3*c+B)%5 == 0 && s < 1<<40 && c < 1<<40 {
+		numFmt = "%03d"
+	}
+	lim = fmt.Sprintf("%s limit "+numFmt+", "+numFmt, base, s, c)
 	if kind == "delete" {
-		lim = fmt.Sprintf("delete where key ^= 'k' limit %d, %d", s, c)
+		lim = fmt.Sprintf("delete where key ^= 'k' limit "+numFmt+", "+numFmt, s, c)
 	}
 	if kind == "delete-keys" {
-		lim = "delete" + strings.TrimPrefix(base, "select *") + fmt.Sprintf(" limit %d, %d", s, c)
+		lim = "delete" + strings.TrimPrefix(base, "select *") + fmt.Sprintf(" limit "+numFmt+", "+numFmt, s, c)
 	}
 	st := c08Store(n)
 	un := runQuery(base, st.clone(), true, B, true)
@@ -492,7 +501,7 @@ func runStmtCase(e *emitter, kind string, n, B, s, c int) {
 			rp.HasBat, rp.ObsB, rp.PanicB = true, ids, pn
 			// chunking seen by the limit logic in batch mode
 			total := len(un.Rows)
-			if kind == "aggregated" || kind == "aggregated-all" {
+			if kind == "aggregated" || kind == "aggregated-all" || kind == "aggregated-interleaved" {
 				// AggregatePlan serves its prepared group rows in chunks of B
 				sizes = nil
 				for left := total; left > 0; left -= B {
@@ -618,7 +627,7 @@ func runC08(c *runCtx) error {
 		}
 	}
 	// part B: statements
-	kinds := []string{"select", "ordered", "aggregated", "delete", "aggregated-all", "select-range", "select-keys", "delete-keys", "select-alias", "aggregated-ordered"}
+	kinds := []string{"select", "ordered", "aggregated", "delete", "aggregated-all", "select-range", "select-keys", "delete-keys", "select-alias", "aggregated-ordered", "aggregated-interleaved"}
 	for _, kind := range kinds {
 		for _, B := range []int{1, 2, 3} {
 			ns := []int{0, 1, B, B + 1, 2 * B, 3*B + 1}
